@@ -39,6 +39,8 @@ var litParsers = map[string]parsley.Parser{
 
 const litRegexp2 = `ab|ba+|c`
 
+var litFiles = map[string]*text.File{}
+
 // litObserve runs one parser at one offset; cursors are 0-based (the file is alone in its set: pos = cursor + 1)
 func litObserve(p string, d []byte, off int) J {
 	o := J{"p": p, "d": intsOf(d), "off": off, "k": "err", "e": 0, "nf": false, "val": []int{}, "start": 0, "valueOK": true, "inrange": true, "rx": -1}
@@ -53,7 +55,16 @@ func litObserve(p string, d []byte, off int) J {
 		}
 	}
 	if m := safely(func() {
-		f := text.NewFile("f", d)
+		// one text.File per content: a literal parser applied again to a file that was read before (at this or at
+		// another offset) must see the same bytes
+		f := litFiles[string(d)]
+		if f == nil {
+			if len(litFiles) > 4000 {
+				litFiles = map[string]*text.File{}
+			}
+			f = text.NewFile("f", append([]byte{}, d...))
+			litFiles[string(d)] = f
+		}
 		if f.Len() != len(d) {
 			panic("harness: content must not contain CRLF")
 		}
@@ -150,19 +161,23 @@ func literalsMain(mode string, a args) {
 				die("bad case: %v", err)
 			}
 			cases++
-			o := litObserve(c.P, bytesOf(c.D), c.Off)
 			if c.K == "node" {
 				nontriv++
 			}
-			bad := o["panic"] != nil || o["valueOK"] != true
-			if c.Strict {
-				bad = bad || o["k"] != c.K || o["e"] != c.E
-				if c.K == "err" {
-					bad = bad || o["nf"] != c.Nf
-				} else {
-					bad = bad || o["start"] != c.Off
-					if c.P == "string" || c.P == "stringbq" || c.P == "char" || c.P == "bool" {
-						bad = bad || !reflect.DeepEqual(norm(o["val"]), norm(c.Val))
+			var o J
+			bad := false
+			for rep := 0; rep < 2 && !bad; rep++ { // the second application reads the same text.File again
+				o = litObserve(c.P, bytesOf(c.D), c.Off)
+				bad = o["panic"] != nil || o["valueOK"] != true
+				if c.Strict {
+					bad = bad || o["k"] != c.K || o["e"] != c.E
+					if c.K == "err" {
+						bad = bad || o["nf"] != c.Nf
+					} else {
+						bad = bad || o["start"] != c.Off
+						if c.P == "string" || c.P == "stringbq" || c.P == "char" || c.P == "bool" {
+							bad = bad || !reflect.DeepEqual(norm(o["val"]), norm(c.Val))
+						}
 					}
 				}
 			}
@@ -184,6 +199,7 @@ func literalsMain(mode string, a args) {
 					Off int    `json:"off"`
 				}
 				json.Unmarshal(line, &c)
+				o.put(litObserve(c.P, bytesOf(c.D), c.Off))
 				o.put(litObserve(c.P, bytesOf(c.D), c.Off))
 			})
 			o.close()
@@ -247,6 +263,9 @@ func literalsMain(mode string, a args) {
 			o.put(litObserve(p, all, len(pre)))
 			if r.Intn(4) == 0 {
 				o.put(litObserve(p, all, r.Intn(len(all)+1)))
+			}
+			if r.Intn(2) == 0 {
+				o.put(litObserve(p, all, len(pre))) // again, on the text.File that has been read before
 			}
 		}
 		o.close()
